@@ -291,7 +291,7 @@ Inductive stack :=
    (variadic call) and must copy it (it does); "the chain behaves as the member list it was constructed with,
    whatever the caller does to its slice afterwards, also for a request in flight" is checked on the
    implementation by the construction-history cases of the harness (cmd/vh/c11hist.go, classes
-   router|failover/members-changed-after-construction).  NewFailoverGroup keeps the caller's slice: known finding. *)
+   router|failover/members-changed-after-construction).  NewFailoverGroup kept the caller's slice until fix 6e48d68. *)
 
 (* does the Go value implement WriteStore? *)
 Definition writable (s : stack) : bool :=
